@@ -409,6 +409,58 @@ fn c20(ctx: &Ctx, rep: &mut Report) {
                         let post = memfs_ntree(&ls.mem.verif_snapshot());
                         judge(backend, c, state, &post, *state != post, a.as_deref(), q_abs.as_deref(), &r, hist, rep, "");
                     }
+                    // --- an acting macro "performs the operation": when it passes, the state it leaves is the state
+                    // the plain call leaves (twin instances; for copyfile the source's directory gets a mode that is
+                    // not the default first, so that what the operation carries over can be told from a default)
+                    let plain: Option<Op> = match m {
+                        M::MkdirP => Some(Op::MkdirP(p.to_string())),
+                        M::MkdirM => Some(Op::MkdirM(p.to_string(), c.mode)),
+                        M::Mkfile => Some(Op::Mkfile(p.to_string())),
+                        M::WriteAll => Some(Op::WriteAll(p.to_string(), c.data.as_bytes().to_vec())),
+                        M::Copyfile => Some(Op::Copy(p.to_string(), c.q.to_string())),
+                        M::Symlink => Some(Op::Symlink(p.to_string(), c.q.to_string())),
+                        M::Remove => Some(Op::Remove(p.to_string())),
+                        M::RemoveAll => Some(Op::RemoveAll(p.to_string())),
+                        _ => None,
+                    };
+                    if let Some(op) = plain {
+                        let mk = || {
+                            let mut ls = LockStep::new(Mode::Model);
+                            let mut scratch = Report::new();
+                            for h in hist {
+                                ls.apply(h, &mut scratch);
+                            }
+                            ls
+                        };
+                        let (sub, twin) = (mk(), mk());
+                        if sub.model.t == *state {
+                            if m == M::Copyfile {
+                                if let Some(par) = a.as_deref().and_then(parent_of).filter(|x| x != "/") {
+                                    let deco = Op::ChmodB(par, ChmodO { all: Some(0o750), dirs: None, files: None, sym: None, recurse: Some(false), follow: false });
+                                    let _ = exec(&sub.mem, &deco);
+                                    let _ = exec(&twin.mem, &deco);
+                                }
+                            }
+                            let r = invoke(&sub.mem, m, p, c.q, c.data, c.mode);
+                            let rb = exec(&twin.mem, &op);
+                            rep.count("acting_macros_compared_with_the_plain_call", 1);
+                            if r.is_ok() && !rb.is_err() {
+                                let (sa, sb2) = (memfs_ntree(&sub.mem.verif_snapshot()), memfs_ntree(&twin.mem.verif_snapshot()));
+                                if sa != sb2 {
+                                    rep.violation(
+                                        &format!("macro:{}(memfs):performs-the-operation→state-differs-from-the-plain-call", mname(m)),
+                                        J::obj(vec![
+                                            ("history", J::Arr(hist.iter().map(|o| J::s(o.describe())).collect())),
+                                            ("macro", J::s(format!("{}(vfs, {:?}, {:?}{:?})", mname(m), p, c.q, c.data))),
+                                            ("plain_call", J::s(op.describe())),
+                                            ("state_after_macro", sa.to_json()),
+                                            ("state_after_plain_call", sb2.to_json()),
+                                        ]),
+                                    );
+                                }
+                            }
+                        }
+                    }
                     // --- Stdfs on the in-domain subset (C02's domain clause), absolute spellings only
                     let stays_in_domain = m != M::Symlink || matches!(q_abs.as_deref().and_then(|q| state.nodes.get(q)), Some(NNode { kind: NKind::Dir, .. }) | Some(NNode { kind: NKind::File(_), .. }));
                     // (remove / remove_all have a postcondition that is read off the disk observation alone, so they are
